@@ -855,3 +855,52 @@ LEVEL_TEXT = ("Machine-checked theorems (Coq 8.16, closed under the global conte
 LEVEL_NOTE = ("Partial: zsh/fish/PowerShell/elvish/nushell cannot be executed here and have no generator model (token "
               "oracle only); bash itself is validated by execution, not proved; known findings (see known_findings.json) "
               "are outside the proved class.")
+
+
+# ---- powershell / elvish generator models ------------------------------------------------------------------
+# Byte-exact Gallina models of clap_complete/src/aot/shells/{powershell,elvish}.rs (coq/theories/Complete/
+# {Powershell,Elvish}Model.v over the built tree of AotTree.v; the generic table specification and the coverage
+# theorems are in PathTable.v / {Powershell,Elvish}Proofs.v).  Two more correspondence streams: the script of the
+# extracted model must equal the real generator's script BYTE FOR BYTE (white space included) on every tree.
+AREAS = AREAS + ["elvish", "powershell"]
+TRUSTED = TRUSTED + [
+    "PowerShell / elvish generator models: extraction of Complete/{Powershell,Elvish}Model.v + Complete/TextTree.v "
+    "(ExtrOcamlBasic only), drivers ocaml/{powershell,elvish}_driver.ml (spec reader, UTF-8 decode/encode by the "
+    "extracted Base.Utf8); char::is_uppercase is a parameter of the PowerShell model (the driver supplies it: exact "
+    "on ASCII, Latin-1, Greek and Cyrillic capitals); the theorems hold for every such function",
+]
+
+
+def model_script_project(r):
+    """what the streams `elvish-model` / `powershell-model` compare: the script, byte for byte"""
+    if r is None:
+        return "none"
+    if not r.startswith("(shell"):
+        return r.split(" ")[0]
+    it = top_items(r)
+    return "shell %s\nscript %s" % (it["shell"][1], it["script"][1])
+
+
+def _model_stream(shell, tier, rng):
+    quick = tier == "quick"
+    cases, dist = [], {}
+    plans = [(None, 60 if quick else 900),
+             ({"alias_without_primary": True}, 10 if quick else 120),       # boundary of C16_<shell>_covers
+             ({"bin": "b in"}, 4 if quick else 40), ({"bin": "é-x"}, 4 if quick else 40)]
+    for prof, n in plans:
+        for _ in range(n):
+            c, st = make_case(rng, shell, tier, profile=prof)
+            cases.append(c)
+            merge(dist, st)
+    return Stream(shell + "-model", cases, oracle=oracle, area=shell, project=model_script_project,
+                  nontrivial=nontrivial, describe=dist)
+
+
+_streams_without_models = streams
+
+
+def streams(tier, rng):
+    out = _streams_without_models(tier, rng)
+    out.append(_model_stream("elvish", tier, rng))
+    out.append(_model_stream("powershell", tier, rng))
+    return out
